@@ -21,13 +21,15 @@ pub enum Fault {
     SendFails,
     /// a reply the parser must reject (never retried)
     Malformed,
+    /// a reply of several datagrams of which only the first arrives, then silence (timeout class); one-datagram replies: silence
+    Partial,
 }
 
 impl Fault {
-    pub fn timeout_class(self) -> bool { matches!(self, Fault::Silent | Fault::SendFails) }
+    pub fn timeout_class(self) -> bool { matches!(self, Fault::Silent | Fault::SendFails | Fault::Partial) }
 }
 
-pub const FAULTS: [Fault; 4] = [Fault::Valid, Fault::Silent, Fault::SendFails, Fault::Malformed];
+pub const FAULTS: [Fault; 5] = [Fault::Valid, Fault::Silent, Fault::SendFails, Fault::Malformed, Fault::Partial];
 
 /// (unit, is the first request of an attempt) for a send, or None if it cannot be classified.
 pub fn unit_of(family: Family, proto: Proto, data: &[u8]) -> Option<(u8, bool)> {
@@ -117,6 +119,8 @@ pub struct FaultLog {
     /// bytes of the first request of every attempt
     pub first_requests: Vec<Vec<u8>>,
     pub unclassified: usize,
+    /// attempts in which a multi-datagram reply was cut to its first datagram
+    pub partial_hits: usize,
 }
 
 pub struct Faulty {
@@ -208,6 +212,19 @@ impl Responder for Faulty {
             match self.cur {
                 Fault::Silent => {}
                 Fault::SendFails => out.fail(),
+                // streams have no datagram boundaries: nothing arrives
+                Fault::Partial if proto == Proto::Tcp => {}
+                Fault::Partial => {
+                    let n_dg = out.conn.inbox.len();
+                    self.inner.on_send(proto, peer, nth, data, out);
+                    let produced = out.conn.inbox.len() - n_dg;
+                    // (an Unreal 2 list has no announced length: its first datagram alone is a complete, shorter reply, so nothing is delivered there)
+                    let counted = matches!(self.family, Family::Valve(_) | Family::Ffow | Family::Gs1 | Family::Gs3 | Family::Jc2m);
+                    out.conn.inbox.truncate(if produced >= 2 && counted { n_dg + 1 } else { n_dg });
+                    if produced >= 2 && counted {
+                        self.log.borrow_mut().partial_hits += 1;
+                    }
+                }
                 Fault::Malformed if self.mangle != 0 && mangle_applies(self.family) => {
                     // the valid reply, cut short
                     let (n_dg, n_st) = (out.conn.inbox.len(), out.conn.stream.len());
